@@ -42,7 +42,7 @@ def run_case(case):
     rng = gen.rng_for(case['seed'], case['idx'], 12)
     sample = None
     for k in range(PER_CASE):
-        w = work_inter.draw(rng, maxsites=6, sigmas=(0.3, 1., 2.), need_sites=2)
+        w = work_inter.draw(rng, maxsites=6, sigmas=(0.3, 1., 2.), need_sites=2, noncentro=0.2)
         if w is None:
             mon.count('skipped')
             continue
